@@ -30,6 +30,6 @@ def is_in_window(polygons, points, ncaps=0):
         if len(indx_not_in) > 0:
             indx_in_curr_polygon = is_in_polygon(polygons[curr_polygon], points[indx_not_in], ncaps=ncaps)
             if indx_in_curr_polygon.any():
-                in_polygon[indx_in_curr_polygon.nonzero()[0]] = curr_polygon
+                in_polygon[indx_not_in[indx_in_curr_polygon]] = curr_polygon
         curr_polygon += 1
     return (in_polygon >= 0, in_polygon)
